@@ -234,7 +234,9 @@ def run_units(unit_names, tier, jobs=None):
     if len(unit_names) == 1 or jobs == 1:
         results = [_symex_job((n, tier)) for n in unit_names]
     else:
-        with ctx.Pool(min(jobs, len(unit_names))) as pool:
+        # one fresh process per unit: the verification conditions of a unit must not depend on which units the same worker
+        # happened to execute before (z3 term ids, hence argument orders after simplification, depend on process history)
+        with ctx.Pool(min(jobs, len(unit_names)), maxtasksperchild=1) as pool:
             results = list(pool.imap_unordered(_symex_job, [(n, tier) for n in unit_names], chunksize=1))
     # ---- phase B
     todo = []
